@@ -26,8 +26,8 @@ plist = ', '.join(props)
 missed = []
 for p in props:
     for d in sorted(glob.glob('/verif/seeded/%s-*/' % p)):
-        lv = os.path.join(d, 'last_verdict.log')
-        if os.path.exists(lv) and 'exit 0 (expected 1)' in open(lv).read():
+        lv = os.path.join(d, 'last_run.log')
+        if os.path.exists(lv) and '[check]' in open(lv).read() and 'VIOLATION' not in open(lv).read():
             missed.append(os.path.basename(d.rstrip('/')))
 falsealarms = []
 for p in props:
